@@ -376,6 +376,9 @@ Definition check (c : Z * Z * Z * list (list (Z*Z*Z*Z*Z) * Z) * bool * (bool * l
   end end.'''
 
 
+_CHAINERS = {}
+
+
 class ChainBase(Stream):
     shard = 400
     prelude = CHAIN_PRELUDE
@@ -385,10 +388,17 @@ class ChainBase(Stream):
         from src.alignment.segment_chainer import SegmentChainer, SequentialityScorer
         segs = [build_segment(s, i) for i, s in enumerate(case['segs'])]
         index = {id(s): i for i, s in enumerate(segs)}
-        scorer = SequentialityScorer(case['sj'], case['ss'])
+        # one chainer per (multiplier, variant) and worker process, re-used for every case that worker gets - as in COMA, where the chainer
+        # lives as long as the aligner and chains the segments of every query a worker handles (state kept between calls would show)
+        key = (case['sj'], case['ss'])
+        if key not in _CHAINERS:
+            _CHAINERS[key] = SegmentChainer(SequentialityScorer(case['sj'], case['ss']))
+        chainer = _CHAINERS[key]
+        scorer = chainer.sequentialityScorer
         try:
-            ch = SegmentChainer(scorer).chain(segs)
+            ch = chainer.chain(segs)
         except Exception as e:
+            _CHAINERS.pop(key, None)
             return dict(err=type(e).__name__)
         ids = [index.get(id(s), -1) for s in ch]
         joins = []
